@@ -285,6 +285,11 @@ func (g *G) intExpr(d int) *m.E {
 		case 1:
 			return m.EAttr(g.Expr(TArrInt, 0), fmt.Sprint(g.intn("ix", 0, 3)))
 		case 2:
+			if g.intn("exprkey", 0, 3) == 0 && g.inInterp == 0 {
+				// {(key expression): value}[key expression]
+				k := g.leaf(TStr)
+				return m.EIdx(&m.E{K: "hash", KS: []*m.E{{K: "group", A: []*m.E{k}}}, A: []*m.E{g.Expr(TInt, d-1)}}, k)
+			}
 			return m.EAttr(g.hashOperand(d), "k0")
 		default:
 			return m.EIdx(g.hashOperand(d), m.EStr("k0"))
@@ -853,6 +858,13 @@ func (g *G) forStmt(nest int) *m.N {
 	}
 	g.loops++
 	n.Body = g.Body(nest - 1)
+	if g.callsOK() && !g.C.Wild && g.intn("observe", 0, 3) > 0 {
+		obs := []*m.E{m.EName(n.S)}
+		if n.T != "" {
+			obs = append(obs, m.EName(n.T))
+		}
+		n.Body = append(n.Body, m.NPrint(m.ECall("cat", obs...)))
+	}
 	if g.C.LoopMeta && n.Y == nil && g.inForIf == 0 {
 		n.Body = append(n.Body, g.loopMeta(depth)...)
 	}
